@@ -108,9 +108,9 @@ Proof.
   split; [vm_compute; reflexivity|]. split; [vm_compute; reflexivity|].
   (* the conditions of the skeleton are resolved by the oracle, not by the board: the oracle that
      Proofs/SkelExamples.v finds for the list machine drives the engine machine through the same path *)
-  pose (seed := match find_run 80 (Call "Go" PlyKeep) (cstate0 1000) good_go with Some s => s | None => 0%nat end).
-  assert (F : egood (erun 80 (Call "Go" PlyKeep) (eglob0, elocals0) (oracle seed)) = true) by (vm_compute; reflexivity).
-  destruct (erun 80 (Call "Go" PlyKeep) (eglob0, elocals0) (oracle seed)) as [[o c'] orc'] eqn:R.
+  pose (seed := match find_run example_fuel (Call "Go" PlyKeep) (cstate0 1000) good_go with Some s => s | None => 0%nat end).
+  assert (F : egood (erun example_fuel (Call "Go" PlyKeep) (eglob0, elocals0) (oracle seed)) = true) by (vm_compute; reflexivity).
+  destruct (erun example_fuel (Call "Go" PlyKeep) (eglob0, elocals0) (oracle seed)) as [[o c'] orc'] eqn:R.
   unfold egood in F. destruct o; try discriminate F.
   apply andb_true_iff in F as [H1 H2].
   exists c'. split; [exact (run_sound _ _ _ _ _ _ _ _ _ _ _ _ _ _ _ _ _ _ R)|].
